@@ -48,6 +48,22 @@ def gen(tier, seed):
         dim = rnd.choice((1, 2))
         cases.append({"U": fsl(U), "p": p, "kind": "int-knots", "mults": [U.count(F(k)) for k in ks[1:-1]], "scalar": dim == 1,
                       "P": pts_json(rand_points(rnd, n, dim)), "W": None, "elevate": 0, "intknots": True})
+    # integer control points given as Python ints / an integer numpy array (the derivative's coefficients are not integers),
+    # and curves far from the origin whose extent is tiny compared with their distance to it (2^24 against 1e-2)
+    for i in range(10 if tier == "quick" else 80):
+        v = rnd.choice([w for w in vecs if w["p"] >= 1 and npts_of(w["U"], w["p"]) <= 7])
+        U, p = v["U"], v["p"]
+        n = npts_of(U, p)
+        dim = rnd.choice((1, 2))
+        if i % 2 == 0:
+            P = [[F(rnd.randint(-9, 9)) for _ in range(dim)] for _ in range(n)]
+            cases.append({"U": fsl(U), "p": p, "kind": v["kind"] + "-intpoints", "mults": v["mults"], "scalar": dim == 1,
+                          "P": pts_json(P), "W": None, "elevate": 0, "intpoints": True})
+        else:
+            off = [F(2 ** 24), F(-3 * 2 ** 22)][:dim]
+            P = [[o + F(rnd.randint(-64, 64), 4096) for o in off] for _ in range(n)]
+            cases.append({"U": fsl(U), "p": p, "kind": v["kind"] + "-far-small", "mults": v["mults"], "scalar": dim == 1,
+                          "P": pts_json(P), "W": None, "elevate": 0})
     # rational Bezier curves of degree 4 and 5 (products of degree 8 and 10 inside the quotient rule)
     for p in ((4, 5) if tier == "quick" else (4, 5, 4, 5, 6)):
         a, b = rnd.choice(((F(0), F(1)), (F(-1), F(2)), (F(1, 2), F(3))))
@@ -65,7 +81,11 @@ def impl(case):
     U = nums(case["U"])
     if case.get("intknots"):
         U = [int(u) for u in U]
-    curve = Curve(U, points(case["P"], case["scalar"]))
+    pts = points(case["P"], case["scalar"])
+    if case.get("intpoints"):
+        import numpy as np
+        pts = [int(x) for x in pts] if case["scalar"] else [np.array([int(x) for x in pt]) for pt in pts]
+    curve = Curve(U, pts)
     if case["W"] is not None:
         curve.weights = nums(case["W"])
     if case.get("elevate"):
